@@ -22,23 +22,23 @@ Proof. repeat split; apply qi_dec; vm_compute; reflexivity. Qed.
 Lemma not_meq_by_meqb n (A B : mat QI) : meqb n A B = false -> ~ meq n A B.
 Proof. intros H HA. apply meqb_sound in HA. congruence. Qed.
 
-(* BS.inverse(h=True) as it is: not the adjoint for phi_tl <> 0 = other phases (all three conventions) *)
+(* HISTORICAL code. BS.inverse(h=True) before db5cda2f: not the adjoint for phi_tl <> 0 = other phases (all three conventions) *)
 Theorem bs_inverse_h_refuted : forall cv,
   ~ meq 2 (leafm qII (bs_inverse false false false cv false true c35 s45 ph one one one))
           (expected false true 2 (bs_mat cv qII c35 s45 ph one one one)).
 Proof. intros cv. apply not_meq_by_meqb. destruct cv; vm_compute; reflexivity. Qed.
-(* BS.inverse(v=True) as it is: not J U J *)
+(* HISTORICAL code. BS.inverse(v=True) before db5cda2f: not J U J *)
 Theorem bs_inverse_v_refuted : forall cv,
   ~ meq 2 (leafm qII (bs_inverse false false false cv true false c35 s45 ph one one one))
           (expected true false 2 (bs_mat cv qII c35 s45 ph one one one)).
 Proof. intros cv. apply not_meq_by_meqb. destruct cv; vm_compute; reflexivity. Qed.
-(* BS.Ry.inverse(v=True, h=True) as it is: wrong even with all phases zero *)
+(* HISTORICAL code. BS.Ry.inverse(v=True, h=True) before db5cda2f: wrong even with all phases zero *)
 Theorem bs_inverse_vh_ry_refuted :
   ~ meq 2 (leafm qII (bs_inverse false false false Ry true true c35 s45 one one one one))
           (expected true true 2 (bs_mat Ry qII c35 s45 one one one one)).
 Proof. apply not_meq_by_meqb. vm_compute. reflexivity. Qed.
 
-(* Experiment.flatten as it is: a circuit at offset 1 that nests a circuit at offset 1 *)
+(* HISTORICAL code. Experiment.flatten before 47d2b926: a circuit at offset 1 that nests a circuit at offset 1 *)
 Definition swap2 : tcomp QI := TSub 2 [(0, TLeaf (LPERM [1; 0]))].
 Definition nest_items : list (nat * tcomp QI) := [(1, TSub 3 [(1, swap2)])].
 Lemma nest_fits : fits QI qII 4 nest_items.
@@ -49,14 +49,14 @@ Proof. split. exact nest_fits. apply not_meq_by_meqb. vm_compute. reflexivity. Q
 Example flatten_partial_hyp : okF_top QI [(0, TSub 3 [(1, swap2)])] /\ Forall (fun ot => shallow QI (snd ot)) [(1, swap2)].
 Proof. split. simpl. tauto. repeat constructor. Qed.
 
-(* _update_adjacent as it is: after components on (2,3) then (1,2), mode 3 belongs to no group *)
+(* _update_adjacent BEFORE its repair: after components on (2,3) then (1,2), mode 3 belongs to no group *)
 Theorem update_adjacent_refuted :
-  let groups := fold_left update_adjacent [[2; 3]; [1; 2]] (map (fun j => [j]) (seq 0 4)) in
+  let groups := fold_left update_adjacent_old [[2; 3]; [1; 2]] (map (fun j => [j]) (seq 0 4)) in
   ~ (forall k, k < 4 -> exists g, In g groups /\ In k g).
 Proof. vm_compute. intros H. destruct (H 3) as [g [Hg Hk]]. lia.
   destruct Hg as [<- | [<- | []]]; simpl in Hk; intuition lia. Qed.
-Theorem update_adjacent_fixed_witness :
-  fold_left update_adjacent_fixed [[2; 3]; [1; 2]] (map (fun j => [j]) (seq 0 4)) = [[0]; [1; 2; 3]].
+Theorem update_adjacent_now_witness :
+  fold_left update_adjacent [[2; 3]; [1; 2]] (map (fun j => [j]) (seq 0 4)) = [[0]; [1; 2; 3]].
 Proof. vm_compute. reflexivity. Qed.
 
 (* hypotheses of the positive theorems are satisfiable *)
